@@ -13,6 +13,15 @@ reached through `Ombott.__call__` (the real application, the real body reader, t
                  the exact file name (raw_filename) and the byte-exact content.
   R2.ctype       the content type of each upload (the header string, or an object whose .value/.options spell it;
                  only checked when the part was sent with a Content-Type header).
+  R2.ctype.absent  an upload whose part was sent WITHOUT a Content-Type header reports no content type of its own: what
+                 the unchanged code gives is the HeaderProperty default '' (FileUpload.content_type with no such header);
+                 None (absent) and RFC 7578 section 4.4's default 'text/plain' are accepted as well (the statement fixes
+                 "their content type", RFC 7578 names text/plain as the meaning of an absent header). Anything else is
+                 a content type the part never sent - in particular the one of ANOTHER part of this form or of a form of
+                 an earlier request ("their ... content type"; "no byte of one part appears in another").
+  R2.headers     every header an upload exposes (FileUpload.headers) is a header THAT part sent: its name (compared
+                 case-insensitively) occurs in the part's own header block, and for Content-Type / extra headers such as
+                 X-Note the value spells what that part sent. Whether extra headers are exposed at all is not demanded.
   R3.post        request.POST holds every name; per name all text values and all uploads, each kind in submission
                  order (for a name used by one kind only this is exactly the submission order).
   R4.file_api    the upload's file object gives the same bytes through interleaved partial reads of all uploads,
@@ -24,6 +33,9 @@ reached through `Ombott.__call__` (the real application, the real body reader, t
 
 Each case also fixes which collection the handler touches first (forms / files / POST) and whether another form with
 the same field names was served by the same application just before (nothing of it may stay behind).
+Part (5) adds histories: a case may carry `pre_fields` (the field list of an EARLIER request, served just before in the
+same process, on the same application or - `pre_app` == 'other' - on a second Ombott object) and file fields may carry a
+6th element: a list of extra (header name, value) lines sent behind Content-Disposition / Content-Type.
 
 Precondition of exactness (C13: "form text larger than the in-memory threshold is refused"): the header blocks plus the
 text values fit in max_memfile_size. Where they do not fit the statement allows refusal: then only "200 => exact" is
@@ -46,7 +58,12 @@ BOUND = ('field lists: (1) every single field over 16 names (ASCII, space, ";", 
          'token boundaries of length 1..70; x boundaries {X, BND, --a-, Ab\'+_.-9, 70 chars} x max_memfile_size {exactly the '
          'text+header budget, +1, +37, 102400} (body spills to disk in the first three) x framing {Content-Length with read '
          'fragmentation full/1/7/script, chunked with pieces all/1/5/13} x closing CRLF present/absent. (1)-(3) enumerated '
-         'completely, framing/threshold rotated in (1) and (3).')
+         'completely, framing/threshold rotated in (1) and (3). (5) part headers per upload: every sequence of length 1..3 '
+         '(quick) / 1..4 (thorough) over 9 parts (uploads with Content-Type image/png | a/b; p=q | none, with / without an extra '
+         'X-Note or x-other header, two of them under one repeated name, one text field), as one form and - every ordered pair of '
+         'sequences of length <=2 (quick) / all splits of every sequence (thorough) - as TWO requests served one after the other '
+         'in one process (same application | a second Ombott object); content_type and the exposed headers of every upload are '
+         'compared with what that part sent (untyped upload => no content type / RFC default), thresholds/framings rotated.')
 NONTRIVIAL_RULE = 'distinct (fields, boundary, threshold, framing, closing CRLF); non-trivial = at least one part'
 
 DEFAULT_MEM = 100 * 1024
@@ -80,11 +97,35 @@ def adversarial(boundary):
     return [x for x in out if d not in b'\r\n' + x + d[:-1]]
 
 
+def _extras(f):
+    """extra header lines of a file field: optional 6th element [[name, value], ...]"""
+    return [tuple(x) for x in f[5]] if f[0] == 'file' and len(f) > 5 and f[5] else []
+
+
+def _hdr_block(f):
+    """header block of one part: the RFC 7578 block of the spec encoder plus the extra lines (name: value)."""
+    out = ms.part_headers(tuple(f[:5]) if f[0] == 'file' else tuple(f))
+    for k, v in _extras(f):
+        assert '\r' not in k + v and '\n' not in k + v and ':' not in k
+        out += b'\r\n' + k.encode('ascii') + b': ' + v.encode('utf8')
+    return out
+
+
+def _encode(fields, boundary, final_crlf=True):
+    """ms.encode, extended to parts with extra header lines (same builder, same legality check)."""
+    if not any(_extras(f) for f in fields):
+        return ms.encode([tuple(f[:5]) for f in fields], boundary, final_crlf=final_crlf)
+    parts = [(_hdr_block(f), ms.part_data(f)) for f in fields]
+    if not ms.legal_boundary(parts, boundary):
+        raise ValueError('boundary occurs inside the encapsulated material')
+    return ms.build(parts, boundary, closing=True, final_crlf=final_crlf)
+
+
 def budget(fields):
     """bytes that must be held in memory as text: header blocks + text values."""
     n = 0
     for f in fields:
-        n += len(ms.part_headers(f))
+        n += len(_hdr_block(f))
         if f[0] == 'text':
             n += len(f[2].encode('utf8'))
     return n
@@ -99,13 +140,17 @@ ORDERS = ['forms', 'files', 'post']
 _counter = [0]
 
 
-def _case(fields, boundary, mem, framing, final_crlf=True, order=None, prelude=None):
+def _case(fields, boundary, mem, framing, final_crlf=True, order=None, prelude=None, pre_fields=None, pre_app=None):
     kind, pieces, script, tail = framing
     _counter[0] += 1
     n = _counter[0]
-    return dict(fields=[list(f) for f in fields], boundary=boundary, mem=mem, framing=kind, pieces=pieces,
-                script=list(script), tail=tail, final_crlf=bool(final_crlf),
-                order=order or ORDERS[n % 3], prelude=bool(n % 4 == 0) if prelude is None else bool(prelude))
+    c = dict(fields=[list(f) for f in fields], boundary=boundary, mem=mem, framing=kind, pieces=pieces,
+             script=list(script), tail=tail, final_crlf=bool(final_crlf),
+             order=order or ORDERS[n % 3], prelude=bool(n % 4 == 0) if prelude is None else bool(prelude))
+    if pre_fields is not None:
+        c['pre_fields'] = [list(f) for f in pre_fields]
+        c['pre_app'] = pre_app or 'same'
+    return c
 
 
 SEQ_PARTS = [
@@ -115,7 +160,55 @@ SEQ_PARTS = [
 ]
 
 
+# (5) part headers: uploads with / without a Content-Type of their own, with / without an extra header line
+HDR_PARTS = [
+    ('file', 'u', 'p.png', 'image/png', b'\x89PNG\r\n\x1a\n--BN\r\n'),
+    ('file', 'u', 'notes', None, b'\r\n--BN plain \xff bytes'),
+    ('file', 'v', 'r.txt', 'a/b; p=q', b'typed'),
+    ('file', 'y', 's', None, b''),
+    ('file', 'w', 'n.txt', 'image/png', b'N', [['X-Note', 'n1']]),
+    ('file', 'w', 'm.txt', None, b'M', [['X-Note', 'n2']]),
+    ('file', 'x', 'o.txt', None, b'O', [['x-other', 'o1']]),
+    ('file', 'z', 'blob.bin', None, b'second request'),
+    ('text', 'title', 'hello'),
+]
+
+
 def gen_cases(tier, seed):
+    yield from _gen_main(tier, seed)
+    yield from _gen_headers(tier)
+
+
+def _gen_headers(tier):
+    quick = tier == 'quick'
+    nf = len(FRAMINGS)
+    maxlen = 3 if quick else 4
+    i = 0
+    for n in range(1, maxlen + 1):
+        for seq in itertools.product(range(len(HDR_PARTS)), repeat=n):
+            fields = [HDR_PARTS[j] for j in seq]
+            i += 1
+            # one form; alternately alone in its case / behind the standard prelude form (upload typed x/stale) on the same app
+            mems = _mems(fields)
+            for k in range(2 if quick else 4):
+                yield _case(fields, ('BND', 'X')[(i + k) % 2], mems[(i + k) % 4], FRAMINGS[(i * 3 + k * 5) % nf],
+                            (i + k) % 4 != 0, prelude=bool(k % 2))
+            # the same parts as TWO requests of one process: every split into two non-empty requests
+            for cut in range(1, n):
+                first, second = fields[:cut], fields[cut:]
+                b = max(budget(first), budget(second), 8)
+                mems2 = [b, b + 1, b + 37, DEFAULT_MEM]
+                yield _case(second, ('BND', 'X')[(i + cut) % 2], mems2[(i + cut) % 4], FRAMINGS[(i * 5 + cut) % nf],
+                            True, prelude=False, pre_fields=first, pre_app=('same', 'other')[(i + cut) % 2])
+    # every ordered pair of single parts on both kinds of history
+    for a in HDR_PARTS:
+        for b2 in HDR_PARTS:
+            for pre_app in ('same', 'other'):
+                i += 1
+                yield _case([b2], 'BND', DEFAULT_MEM, FRAMINGS[i % nf], True, prelude=False, pre_fields=[a], pre_app=pre_app)
+
+
+def _gen_main(tier, seed):
     quick = tier == 'quick'
     _counter[0] = 0
     nf = len(FRAMINGS)
@@ -212,7 +305,7 @@ def gen_cases(tier, seed):
                 fn = rnd.choice(NAMES) if rnd.random() < .6 else ''.join(rnd.choice(namechars) for _ in range(rnd.randrange(1, 12)))
                 fields.append(('file', name, fn, rnd.choice(CTYPES + ['application/octet-stream']), b''.join(parts)))
         try:
-            ms.encode(fields, bd)
+            _encode(fields, bd)
         except ValueError:
             continue
         b = max(budget(fields), 8)
@@ -245,6 +338,37 @@ def _ctype_ok(obs, ct):
         return val == media and dict(opts) == params
     except Exception:
         return False
+
+
+def _plain(v):
+    """a header value as plain data: str stays, an object with .value/.options becomes [value, {options}]"""
+    if v is None or isinstance(v, (str, int)):
+        return v
+    val, opts = getattr(v, 'value', None), getattr(v, 'options', None)
+    if isinstance(val, str):
+        try:
+            return [val, {str(k): x for k, x in dict(opts or {}).items()}]
+        except Exception:
+            pass
+    return repr(v)
+
+
+def _hdr_obs(u):
+    """[[name, plain value], ...] of the headers an upload exposes; None if they cannot be listed"""
+    try:
+        return [[str(k), _plain(v)] for k, v in list(u.headers.items())]
+    except Exception:
+        return None
+
+
+def _spelled(obs, sent):
+    """does the observed header value (str | [value, options]) spell the value that was sent?"""
+    if isinstance(obs, str):
+        return obs == sent
+    if isinstance(obs, list) and len(obs) == 2:
+        media, params = _split_ctype(sent)
+        return obs[0] == sent or (obs[0] == media and obs[1] == params)
+    return False
 
 
 def _is_upload(x):
@@ -312,7 +436,7 @@ def run_case(case):
     fields = [tuple(f) for f in case['fields']]
     boundary = case['boundary']
     try:
-        body = ms.encode(fields, boundary, final_crlf=case['final_crlf'])
+        body = _encode(fields, boundary, final_crlf=case['final_crlf'])
     except ValueError:
         return None     # the boundary is not legal for these fields: outside the space
     mem = case['mem']
@@ -368,7 +492,7 @@ def run_case(case):
                 u.save(sink)
                 size = u.file.seek(0, 2)
                 o.append(dict(name=u.name, filename=u.raw_filename, a=a[id(u)], b=b, c=sink.getvalue(), size=size,
-                              ctype=u.content_type, probe=_probe(u.file, len(b))))
+                              ctype=u.content_type, hdrs=_hdr_obs(u), probe=_probe(u.file, len(b))))
             out[k] = o
         seen['files'] = out
         pobs = {}
@@ -398,6 +522,20 @@ def run_case(case):
         pre = ms.encode([('text', n0, 'stale'), ('file', n0, 'stale.bin', 'x/stale', b'STALE'), ('text', 'pre', 'p')], 'PRE')
         serve(app, make_environ('/up', 'POST', body=pre, content_type=ms.content_type_header('PRE')))
         seen.clear()
+    if case.get('pre_fields') is not None:
+        # an EARLIER request of the same process (same application, or a second Ombott object): its parts are not ours
+        pre_fields = [tuple(f) for f in case['pre_fields']]
+        pre_app = app
+        if case.get('pre_app') == 'other':
+            pre_app = ombott.Ombott({'max_memfile_size': max(mem, budget(pre_fields))})
+
+            @pre_app.route('/up', method='POST')
+            def h0():
+                rq = pre_app.request
+                return 'ok %d %d' % (len(rq.forms), sum(len(_aslist(v)) for v in rq.files.values()))
+        pre = _encode(pre_fields, 'PRE')
+        serve(pre_app, make_environ('/up', 'POST', body=pre, content_type=ms.content_type_header('PRE')))
+        seen.clear()
     res = serve(app, env)
     if res.code != 200 or res.exc is not None:
         if not fits and res.exc is None:
@@ -418,9 +556,9 @@ def run_case(case):
     sent_ct = {}
     for f in fields:
         if f[0] == 'file':
-            sent_ct.setdefault(f[1], []).append(f[3])
+            sent_ct.setdefault(f[1], []).append((f[3], _extras(f)))
     for k, lst in ofiles.items():
-        for u, ct_sent in zip(lst, sent_ct[k]):
+        for u, (ct_sent, extras) in zip(lst, sent_ct[k]):
             if not (u['a'] == u['b'] == u['c']) or u['size'] != len(u['b']):
                 return fail('R4.file_api', name=k, interleaved=u['a'], rewound=u['b'], saved=u['c'], size=u['size'])
             content = u['b']
@@ -436,6 +574,24 @@ def run_case(case):
                     return fail('R4.file_api.seek', name=k, op=label, observed=obs, expected=exp, content=content[:200])
             if ct_sent is not None and not _ctype_ok(u['ctype'], ct_sent):
                 return fail('R2.ctype', name=k, expected=ct_sent, observed=repr(u['ctype']))
+            if ct_sent is None and not (u['ctype'] is None or (isinstance(u['ctype'], str) and u['ctype'] == '')
+                                        or _ctype_ok(u['ctype'], 'text/plain')):
+                return fail('R2.ctype.absent', name=k, filename=u['filename'], observed=repr(u['ctype']),
+                            expected="no content type ('' / None) or the RFC 7578 default text/plain: the part sent none")
+            if u.get('hdrs') is not None:
+                sent_h = {'content-disposition': None}
+                if ct_sent is not None:
+                    sent_h['content-type'] = ct_sent
+                for hk, hv in extras:
+                    sent_h[hk.lower()] = hv
+                for hk, hv in u['hdrs']:
+                    if hk.lower() not in sent_h:
+                        return fail('R2.headers', name=k, filename=u['filename'], what='a header this part never sent',
+                                    header=hk, value=hv, sent=sorted(sent_h))
+                    want = sent_h[hk.lower()]
+                    if want is not None and not _spelled(hv, want):
+                        return fail('R2.headers', name=k, filename=u['filename'], what='value differs from what this part sent',
+                                    header=hk, observed=hv, expected=want)
     opost = seen.get('post')
     if set(opost) != set(eorder):
         return fail('R3.post', expected=sorted(eorder), observed=sorted(opost), what='names')
